@@ -28,6 +28,7 @@ SubClasses == 1..10
 PlainBinding == {<<1, 2>>}
 \* every class once, paired with the class a cleaning join would merge it with / with another climber
 HostileBindings == {<<1, 7>>, <<9, 1>>, <<3, 8>>, <<4, 5>>, <<6, 10>>}
+NoProbes == -1      \* value for ProbeDepth (cfg files cannot hold negative numbers)
 AllBindings == {<<a, b>> : a \in SubClasses, b \in SubClasses} \ {<<a, a>> : a \in SubClasses}
 Other(a) == (a % Cardinality(Accounts)) + 1
 Created == DOMAIN denoms
